@@ -473,6 +473,29 @@ func (w *Writers) antichainActions() []string {
 	return out
 }
 
+// noteDelivery: one batch of heads was handed to replica i without error, in a world where every block can be
+// fetched and every writer is authorised. Once the world is quiet with no fetch parked at a gate, replica i
+// holds every head of the batch. A miss is kept for the oracle of the property that names batching (C01).
+func (w *Writers) noteDelivery(i int, heads []ipfslog.Entry) error {
+	if err := sim.Quiesce(); err != nil {
+		return err
+	}
+	if len(w.Net.Gates.Parked()) > 0 {
+		return nil // fetches are waiting for the explorer: nothing to judge yet
+	}
+	var missing []string
+	for _, h := range heads {
+		if _, ok := w.Stores[i].OpLog().Get(h.GetHash()); !ok {
+			missing = append(missing, w.EID(h))
+		}
+	}
+	if len(missing) > 0 {
+		sort.Strings(missing)
+		w.Scratch["batch-not-delivered"] = fmt.Sprintf("replica %d was handed the heads %v in one batch and is quiet, but lacks %v", i, w.EIDs(heads), missing)
+	}
+	return nil
+}
+
 // announce delivers heads to the observer by the given route.
 func (w *Writers) announce(from int, heads []ipfslog.Entry, route string) error {
 	o := w.N
@@ -484,6 +507,8 @@ func (w *Writers) announce(from int, heads []ipfslog.Entry, route string) error 
 		}
 		if err := w.Stores[o].Sync(bg, hs); err != nil {
 			w.pending = append(w.pending, explore.Violation{Signature: "sync-error", Detail: err.Error()})
+		} else if derr := w.noteDelivery(o, hs); derr != nil {
+			return derr
 		}
 	case "topic", "direct":
 		hs, err := WireCopy(w.Addr, heads)
@@ -621,6 +646,8 @@ func (w *Writers) Do(a string) error {
 		}
 		if err := w.Stores[i].Sync(bg, heads); err != nil {
 			w.pending = append(w.pending, explore.Violation{Signature: "sync-error", Detail: fmt.Sprintf("%s: %v", a, err)})
+		} else if derr := w.noteDelivery(i, heads); derr != nil {
+			return derr
 		}
 	case a[0] == 'a':
 		j := int(a[1] - '0')
